@@ -2,7 +2,8 @@ pub(crate) fn normalize(path: &str) -> String {
     let mut slices = vec![];
     for slice in path.split('/') {
         match slice {
-            "." => {}
+            // (an empty segment, as in `a//b` or a leading `/`, names nothing)
+            "." | "" => {}
             ".." => {
                 slices.pop();
             }
@@ -21,7 +22,7 @@ pub(crate) fn resolve(base: &str, rel: &str) -> String {
     } else {
         for slice in base.split('/') {
             match slice {
-                "." => {}
+                "." | "" => {}
                 ".." => {
                     slices.pop();
                 }
@@ -35,7 +36,8 @@ pub(crate) fn resolve(base: &str, rel: &str) -> String {
     slices.pop();
     for slice in main.split('/') {
         match slice {
-            "." => {}
+            // (an empty segment, as in `a//b` or a leading `/`, names nothing)
+            "." | "" => {}
             ".." => {
                 slices.pop();
             }
